@@ -1,0 +1,21 @@
+//go:build verif
+
+package ast_java
+
+// Contracts checked by /verif (vcgo). Comment-only: no executable code.
+// C09: the full pass never dereferences a nil node or makes a failing type assertion on an error-free parse tree.
+// State invariant of the listener's package-level state between two callbacks:
+
+//@ invariant currentNode != nil && Allocated(currentNode)
+//@ invariant mapFields != nil && localVars != nil && formalParameters != nil && methodMap != nil && creatorMethodMap != nil
+
+//@ func NewJavaFullListener
+//@ establishes
+//@ modifies *
+
+// string helpers without side effects on the listener state: verified on their own, not inlined into every callback
+//@ func WarpTargetFullType
+//@ noinline
+
+//@ func ParseTargetType
+//@ noinline
